@@ -270,4 +270,31 @@ Definition read_value (mode : vmode) (txlog : bytes) (vlogs : list bytes)
            (vlen off : N) (hval : bytes) : res bytes :=
   if vlen =? 0 then Ok [] else read_value_at true mode txlog vlogs vlen off hval.
 
+(* make([]byte, entry.vLen) in ReadValue / valueRef.Resolve / ExportTx happens before any check and
+   is not related to MaxValueLen: bytes allocated for one value read *)
+Definition read_value_alloc (vlen : N) : N := vlen.
+
+(* ---- the value loop of ExportTx (after readTx succeeded): a value whose read ends in io.EOF is
+   taken for "truncated by retention" and its digest is exported instead; either all values are
+   exported or none. Result: the truncated flag and, per entry, the value or the digest ---- *)
+Fixpoint export_values (chk : bool) (mode : vmode) (txlog : bytes) (vlogs : list bytes)
+         (es : list entry) (i : N) (trunc : bool) : res (bool * list bytes) :=
+  match es with
+  | [] => Ok (trunc, [])
+  | e :: r =>
+      match read_value_at chk mode txlog vlogs (e_vlen e) (e_voff e) (e_hval e) with
+      | Panic => Panic
+      | Err c =>
+          if c =? EEOF then
+            if negb trunc && (0 <? i) then Err ECorruptedData else
+            do (t, l) <- export_values chk mode txlog vlogs r (i + 1) true;
+            Ok (t, e_hval e :: l)
+          else Err c
+      | Ok v =>
+          if trunc then Err ECorruptedData else
+          do (t, l) <- export_values chk mode txlog vlogs r (i + 1) trunc;
+          Ok (t, v :: l)
+      end
+  end.
+
 End Hash.
